@@ -1458,6 +1458,26 @@ class Program:
         g.d["singleExit"] = ok
         return ok
 
+    def _copy_capture_changes(self, f, g):
+        """lambda g of caller f captures a variable BY COPY that the caller changes after the lambda was created (an assignment, an
+        increment, or its address handed out — `&error` to a cfitsio routine): inside the lambda the variable keeps its value at creation,
+        so the lambda's body is not the caller's code and must not be folded into it."""
+        for i, n in enumerate(f.nodes):
+            if n["k"] == "LambdaExpr" and n.get("lambdaUsr") == g.usr and n.get("copyCaptures"):
+                names = set(n["copyCaptures"])
+                made = f.seq(i) if i in set(f.walk()) else -1
+                for x in f.walk():
+                    m = f.nodes[x]
+                    tgt = None
+                    if m["k"] in ("BinaryOperator", "CompoundAssignOperator") and m.get("op", "").endswith("=") and m["op"] not in ("==", "!=", "<=", ">="):
+                        tgt = f.strip(m["ch"][0])
+                    elif m["k"] == "UnaryOperator" and m.get("op") in ("++", "--", "&"):
+                        tgt = f.strip(m["ch"][0])
+                    if tgt is not None and f.nodes[tgt]["k"] == "DeclRefExpr" and f.nodes[tgt]["decl"].get("name") in names and \
+                            f.nodes[tgt]["decl"].get("kind") in ("Var", "ParmVar") and (made < 0 or f.seq(x) > made):
+                        return f.nodes[tgt]["decl"]["name"]
+        return None
+
     def _fold_one(self, f, ci, g):
         TR = ("ImplicitCastExpr", "ParenExpr", "ExprWithCleanups", "MaterializeTemporaryExpr", "CXXBindTemporaryExpr")
         STMT_PARENTS = ("CompoundStmt", "IfStmt", "ForStmt", "WhileStmt", "DoStmt", "CaseStmt", "DefaultStmt", "LabelStmt")
@@ -1508,6 +1528,8 @@ class Program:
             return False
         is_lambda = g.kind == "lambda"
         this_obj = None
+        if is_lambda and self._copy_capture_changes(f, g):
+            return False
         if is_lambda:
             args = [a for a in f.nodes[ci]["ch"][2:]]
             if f.nodes[ci]["k"] != "CXXOperatorCallExpr":
@@ -1802,6 +1824,8 @@ class Program:
                     continue
                 g, expr = cands[(f.unit, cal["usr"])]
                 if g is f:
+                    continue
+                if g.kind == "lambda" and self._copy_capture_changes(f, g):
                     continue
                 if n["k"] == "CallExpr":
                     args = n["ch"][1:]
